@@ -61,8 +61,16 @@ class Store:
         cells = [None] * len(self.adt['variants'][0]['fields'])
         m = MapObj('hash', {ks: Cell(('map', MapObj('hash', {k: Cell(('tuple', [Cell(('ts', v[0])), Cell(('bool', v[1]))])) for k, v in ent.items()}))) for ks, ent in meta.items()})
         d = MapObj('hash', {ks: Cell(('map', MapObj('hash', {k: Cell(doc_value(facts, self.doc_ty, k, v)) for k, v in ent.items()}))) for ks, ent in data.items()})
-        cells[self.meta] = Cell(('map', m))
-        cells[self.data] = Cell(('map', d))
+        ftys = [x['ty'] for x in self.adt['variants'][0]['fields']]
+
+        def wrap(ty, v, depth=0):
+            # a table kept behind a private newtype (`KeyspaceTable<V>(RwLock<HashMap<..>>)`): the wrapper is rebuilt around the map
+            a = facts.adts.get(ty_head(ty))
+            if a is not None and a['kind'] == 'struct' and len(a['variants'][0]['fields']) == 1 and depth < 3:
+                return ('adt', ty_head(ty), 0, [Cell(wrap(a['variants'][0]['fields'][0]['ty'], v, depth + 1))])
+            return v
+        cells[self.meta] = Cell(wrap(ftys[self.meta], ('map', m)))
+        cells[self.data] = Cell(wrap(ftys[self.data], ('map', d)))
         for i in range(len(cells)):
             if cells[i] is None:
                 cells[i] = Cell(('opaque', 'field'))
@@ -70,12 +78,17 @@ class Store:
 
     def read(self, interp_deref, v):
         meta, data = {}, {}
-        for ks, c in v[3][self.meta].v[1].items.items():
+
+        def table(x):
+            while x is not None and x[0] == 'adt' and len(x[3]) == 1:
+                x = x[3][0].v
+            return x
+        for ks, c in table(v[3][self.meta].v)[1].items.items():
             meta[ks] = {}
             for k, cc in c.v[1].items.items():
                 tv = cc.v
                 meta[ks][k] = (tv[1][0].v[1], tv[1][1].v[1])
-        for ks, c in v[3][self.data].v[1].items.items():
+        for ks, c in table(v[3][self.data].v)[1].items.items():
             data[ks] = {}
             for k, cc in c.v[1].items.items():
                 found = []
